@@ -420,6 +420,27 @@ def refineTracks (eps : Rat) (cols : List (List Int)) (h : Nat) (n : Int) (g : L
   | .error e => .error e
   | .ok ps => .ok (regroup (ig.map List.length) (ps.map fun q => ((q.2.1 : Int), q.1)))
 
+/-! ### programs that also refine -/
+
+/-- a step of a program that also refines: an editing step or `refine_tracks_centroid(track_width, bias_correction=False)` -/
+inductive Step where
+  | edit (op : EditOp)
+  | refine (h : Nat)
+deriving Repr
+
+def applyStep (eps lt : Rat) (cols : List (List Int)) (n : Int) (g : List Track) : Step → Except String (List Track)
+  | .edit op => applyOp lt g op
+  | .refine h => refineTracks eps cols h n g
+
+/-- a program of steps; a refused step leaves the group as it is -/
+def runSteps (eps lt : Rat) (cols : List (List Int)) (n : Int) : List Step → List Track → List Track
+  | [], g => g
+  | st :: sts, g =>
+    match applyStep eps lt cols n g st with
+    | .ok g' => runSteps eps lt cols n sts g'
+    | .error _ => runSteps eps lt cols n sts g
+
+
 /-! ### `merge_close_peaks` (per frame) -/
 
 def absRat (r : Rat) : Rat := if r < 0 then -r else r
@@ -497,6 +518,7 @@ def editOp? (s : String) : Option EditOp :=
   `c08.editprog lineTime <step|step|…> [[idx]] [[coords]]`   the group after the program (refused steps skipped)
   `c08.trackof [[coords per frame]] [f:j,…;…]`               the tracks of a linker result as (idx, coordinate)
   `c08.refine eps h n [[scan lines]] [[idx]] [[coords]]`     `refine_tracks_centroid(bias_correction=False)`: the group, or the error
+  `c08.steps eps lineTime n [[scan lines]] <step|…> [[idx]] [[coords]]`   program of editing steps and `refine:h` steps
   `c08.mergeclose minDist [[coords per frame]] [[amps per frame]]`   the frames after `merge_close_peaks`
   `c08.moment eps h n [[scan lines]] [c:t,…]`                 pixel walk: `[refined,…] [m0,…]` or the error -/
 def handle : List String → Option String
@@ -574,6 +596,17 @@ def handle : List String → Option String
       match refineTracks eps cols h n g with
       | .ok g' => some (showGroup g')
       | .error e => some e
+  | ["c08.steps", eps, lt, n, cols, steps, times, coords] => do
+    let eps ← rat? eps; let lt ← rat? lt; let n ← int? n
+    let cols ← listListOf? int? cols
+    let sts ← (steps.splitOn "|").mapM fun s =>
+      match s.splitOn ":" with
+      | ["refine", h] => (nat? h).map Step.refine
+      | _ => (editOp? s).map Step.edit
+    let times ← listListOf? int? times; let coords ← listListOf? rat? coords
+    let g ← mkGroup times coords
+    if g.any (·.isEmpty) then some "ValueError"
+    else some (showGroup (runSteps eps lt cols n sts g))
   | ["c08.mergeclose", md, coords, amps] => do
     let md ← rat? md
     let coords ← listListOf? rat? coords; let amps ← listListOf? rat? amps
